@@ -39,7 +39,7 @@ def mc_summary(mcs):
 
 # ------------------------------------------------------------------ C02 / C16
 POT_TIER = {
-    "quick": dict(mc=[dict(NPs="{2,3,4}", MaxC="3", MaxS="2")], enum=dict(n="2,3,4", cmax=3, smax=2, random=400), engine_runs=500, fork_runs=0),
+    "quick": dict(mc=[dict(NPs="{2,3,4}", MaxC="3", MaxS="2")], enum=dict(n="2,3,4", cmax=3, smax=2, random=1500), engine_runs=500, fork_runs=0),
     "thorough": dict(mc=[dict(NPs="{2,3,4}", MaxC="4", MaxS="3"), dict(NPs="{5}", MaxC="3", MaxS="2"), dict(NPs="{6}", MaxC="2", MaxS="2")],
                      enum=dict(n="2,3,4,5", cmax=3, smax=2, random=20000), engine_runs=4000, fork_runs=300),
 }
